@@ -436,6 +436,8 @@ def run(chk):
     chk.guard(rule_r2, chk)
     chk.guard(rule_r3, chk)
     chk.guard(rule_r4, chk)
+    from .. import args as _args
+    chk.guard(_args.apply, chk, "C07-R90", {'fords', 'plans', 'stacked_time'}, 1)
     chk.assumptions = [
         "exact hitting of targets by the smoother-based first-order method and recovery of shocks are numerical: NOT decided",
         "kalmans.predict/smooth are correct (C03)",
